@@ -100,6 +100,7 @@ type Link struct {
 	pongModel    bool
 	pongDelay    time.Duration
 	pongSilentAt time.Duration // <0: never silent
+	stopReading  bool          // the silent peer also stops reading: after the first ping it leaves unanswered, writes block
 	PingLog      []pingRec     // pings written by the client (id, time)
 	PongLog      []pingRec     // pongs written by the client (for broker pings)
 
@@ -252,6 +253,9 @@ func (l *Link) Write(b []byte) error {
 							}
 						}
 					})
+				} else if l.stopReading && !l.stalled {
+					l.stalled = true
+					s.stats["fault.peer-stops-reading"]++
 				}
 				s.mu.Unlock()
 				return nil
